@@ -28,7 +28,8 @@ Consume == l' = l + 1 /\ tid' = tid /\ TLCSet(Reg(tid), l + 1)
 
 TGB == l < Len(Ev) /\ E.op = "gb" /\ AdvanceGB /\ Observed /\ Consume
 TGrp == l < Len(Ev) /\ E.op = "grp" /\ AdvanceGroup(E.g) /\ Observed /\ Consume
-TNext == TGB \/ TGrp
+TClose == l < Len(Ev) /\ E.op = "close" /\ CloseGroup(E.g) /\ Observed /\ Consume
+TNext == TGB \/ TGrp \/ TClose
 Spec2 == TInit /\ [][TNext]_tvars
 
 Rejected == {t \in 1..NT : TLCGet(Reg(t)) < Len(Traces[t].ev)}
